@@ -194,10 +194,30 @@ class Hist:
         self.n_items = 0
         self.flags = set()
         self.falsy_items = False
+        self.forgetful = False
+        self.script_ops = 0
+        self.dead_addrs = set()      # addresses of tokens that have been freed (forgetful histories)
+        self.addr_reused = 0
         self.probe = {"put": 0, "get": 0, "put_nontrivial": 0, "get_nontrivial": 0}
 
     def log(self, *a):
         self.ops.append(a)
+
+    def prune(self):
+        """forgetful histories: forget tokens that are used or cancelled"""
+        keep = []
+        for ent in self.tokens:
+            m = getattr(ent[0], "_m", None)
+            if m is not None and m.state in ("used", "cancelled"):
+                self.dead_addrs.add(id(ent[0]))
+            else:
+                keep.append(ent)
+        self.tokens[:] = keep
+
+    def born(self, tok):
+        if id(tok) in self.dead_addrs:
+            self.dead_addrs.discard(id(tok))
+            self.addr_reused += 1
 
 
 def weights(profile):
@@ -237,8 +257,15 @@ def client(env, T, cid, rng, nops, W, H, mode, mon, other):
     used_p, used_g, canc_p, canc_g = [], [], [], []
     illp = mode.get("illformed", 0.0)
     probep = mode.get("probe", 0.0)
+    # forgetful clients drop every reference to a token once it is used or cancelled, as real callers do: the object is freed and
+    # its address is handed to one of the next events (a store that keys bookkeeping by id(request) must clean up on every path)
+    forget = H.forgetful and not illp
+    tok = None
     yield env.timeout(rng.choice((0, 0, 0.25, 0.5)))
     for _ in range(nops):
+        tok = None
+        if forget:
+            H.prune()
         gp = [t for t in puts if t.triggered]
         pp = [t for t in puts if not t.triggered]
         gg = [t for t in gets if t.triggered]
@@ -390,6 +417,7 @@ def client(env, T, cid, rng, nops, W, H, mode, mon, other):
             prio = rng.choice(PRIOS) if T.prio else 0
             tok = T.reserve_put(prio)
             puts.append(tok)
+            H.born(tok)
             H.tokens.append((tok, cid, "put"))
             H.log(cid, "rp", prio, tok.triggered)
         elif op == "rg":
@@ -399,6 +427,7 @@ def client(env, T, cid, rng, nops, W, H, mode, mon, other):
                 filt = make_filter(rng.choice(COLOURS))
             tok = T.reserve_get(prio, filt)
             gets.append(tok)
+            H.born(tok)
             H.tokens.append((tok, cid, "get"))
             H.log(cid, "rg", prio, getattr(filt, "colour", None), tok.triggered)
         elif op == "put":
@@ -411,25 +440,29 @@ def client(env, T, cid, rng, nops, W, H, mode, mon, other):
             it.colour = rng.choice(COLOURS)
             T.put(tok, it, rng)
             puts.remove(tok)
-            used_p.append(tok)
+            if not forget:
+                used_p.append(tok)
             H.log(cid, "put", it.id)
         elif op == "get":
             tok = rng.choice(gg)
             it = T.get(tok)
             gets.remove(tok)
-            used_g.append(tok)
+            if not forget:
+                used_g.append(tok)
             H.log(cid, "get", getattr(it, "id", None))
         elif op in ("cancel_gput", "cancel_pput"):
             tok = rng.choice(gp if op == "cancel_gput" else pp)
             T.cancel_put(tok)
             puts.remove(tok)
-            canc_p.append(tok)
+            if not forget:
+                canc_p.append(tok)
             H.log(cid, op)
         elif op in ("cancel_gget", "cancel_pget"):
             tok = rng.choice(gg if op == "cancel_gget" else pg)
             T.cancel_get(tok)
             gets.remove(tok)
-            canc_g.append(tok)
+            if not forget:
+                canc_g.append(tok)
             H.log(cid, op)
         elif op == "wait_put":
             tok = rng.choice(pp)
@@ -455,6 +488,82 @@ def client(env, T, cid, rng, nops, W, H, mode, mon, other):
         H.log(cid, "cleanup")
 
 
+def script_client(env, T, cid, rng, nops, W, H):
+    """A caller that is not a SimPy process: the model script itself between two pieces of a run, or a plain event callback.
+    env.active_process is None for it, which is a legitimate owner of reservations (requesting_process None == active_process None).
+    It cannot wait; it issues one operation per tick from a timer callback."""
+    from factorysimpy.helper.item import Item
+    puts, gets = [], []
+    left = [nops]
+
+    def tick(_ev):
+        if left[0] <= 0:
+            return
+        left[0] -= 1
+        gp = [t for t in puts if t.triggered]
+        pp = [t for t in puts if not t.triggered]
+        gg = [t for t in gets if t.triggered]
+        pg = [t for t in gets if not t.triggered]
+        ops = [("idle", W["sleep"])]
+        if len(puts) < W["max_put"]:
+            ops.append(("rp", W["rp"]))
+        if len(gets) < W["max_get"]:
+            ops.append(("rg", W["rg"]))
+        if gp:
+            ops += [("put", W["put"]), ("cancel_gput", W["cancel_gput"])]
+        if pp:
+            ops.append(("cancel_pput", W["cancel_pput"]))
+        if gg:
+            ops += [("get", W["get"]), ("cancel_gget", W["cancel_gget"])]
+        if pg:
+            ops.append(("cancel_pget", W["cancel_pget"]))
+        names, ws = zip(*ops)
+        op = rng.choices(names, ws)[0]
+        if op == "rp":
+            prio = rng.choice(PRIOS) if T.prio else 0
+            tok = T.reserve_put(prio)
+            puts.append(tok)
+            H.tokens.append((tok, cid, "put"))
+            H.log(cid, "rp", prio, tok.triggered)
+        elif op == "rg":
+            prio = rng.choice(PRIOS) if T.prio else 0
+            filt = make_filter(rng.choice(COLOURS)) if T.filters and rng.random() < 0.6 else None
+            tok = T.reserve_get(prio, filt)
+            gets.append(tok)
+            H.tokens.append((tok, cid, "get"))
+            H.log(cid, "rg", prio, getattr(filt, "colour", None), tok.triggered)
+        elif op == "put":
+            tok = rng.choice(gp)
+            H.n_items += 1
+            it = Item(f"c{cid}.{H.n_items}")
+            it.length = getattr(T, "item_length", 1)
+            it.colour = rng.choice(COLOURS)
+            T.put(tok, it, rng)
+            puts.remove(tok)
+            H.log(cid, "put", it.id)
+        elif op == "get":
+            tok = rng.choice(gg)
+            it = T.get(tok)
+            gets.remove(tok)
+            H.log(cid, "get", getattr(it, "id", None))
+        elif op in ("cancel_gput", "cancel_pput"):
+            tok = rng.choice(gp if op == "cancel_gput" else pp)
+            T.cancel_put(tok)
+            puts.remove(tok)
+            H.log(cid, op)
+        elif op in ("cancel_gget", "cancel_pget"):
+            tok = rng.choice(gg if op == "cancel_gget" else pg)
+            T.cancel_get(tok)
+            gets.remove(tok)
+            H.log(cid, op)
+        H.script_ops += 1
+        nxt = env.timeout(rng.choice(SLEEPS + (0,)))
+        nxt.callbacks.append(tick)
+
+    first = env.timeout(rng.choice((0, 0.25, 0.5, 1)))
+    first.callbacks.append(tick)
+
+
 def run_case(seed, kind=None, profile=None, mode=None, nops=None):
     use_repo()
     shim.install()
@@ -474,8 +583,12 @@ def run_case(seed, kind=None, profile=None, mode=None, nops=None):
     H = Hist()
     H.falsy_items = rng.random() < 0.125
     W = weights(profile)
+    rng2 = random.Random(seed ^ 0x5EED)      # decisions added later draw from their own stream (older histories stay what they were)
+    H.forgetful = rng2.random() < 0.3
     for c in range(ncl):
         env.process(client(env, T, c, random.Random(rng.random()), nops, W, H, mode, mon, other))
+    if rng2.random() < 0.2:
+        script_client(env, T, "s", random.Random(rng2.random()), nops, W, H)
     exc = None
     horizon = mode.get("horizon", 80)
     try:
@@ -530,6 +643,9 @@ def summarize(mon, sh, H, env, exc):
         "C11": H.probe["put_nontrivial"] + H.probe["get_nontrivial"] > 0,
         "C18": sh.occ_changes >= 6,
     }
+    mon.counters["e1_forgetful_histories"] += int(H.forgetful)
+    mon.counters["e1_token_addresses_reused"] += H.addr_reused
+    mon.counters["e1_script_level_ops"] += H.script_ops
     crash = None
     if exc is not None:
         import traceback
